@@ -337,3 +337,64 @@ Section Honest.
         * apply Nat.ltb_ge in E. left. right. split; [apply Hms; auto|exact E].
   Qed.
 End Honest.
+
+(** ---- termination for ANY backend behaviour (errors, inconsistent answers) ---- *)
+Lemma classify_nonempty : forall ms work final w f,
+  classify ms work final = (w, f) -> (forall e, In e work -> snd e <> []) -> forall e, In e w -> snd e <> [].
+Proof.
+  induction ms as [|d ms IH]; intros work final w f H Hw; cbn [classify] in H.
+  - injection H as <- <-. exact Hw.
+  - destruct (Nat.ltb 1 (length (parents_of d))) eqn:E; [|eapply IH; eauto].
+    eapply IH; [exact H|]. intros e He. apply in_app_iff in He as [He|[<-|[]]]; [apply Hw; exact He|].
+    cbn [snd]. apply Nat.ltb_lt in E. destruct (parents_of d) as [|a [|b l]]; cbn in E; try lia. discriminate.
+Qed.
+
+Lemma levels_no_panic (fm : nat -> list digest -> outcome (list digest)) :
+  (forall k q, fm k q <> Panic) ->
+  forall fuel k work final asked,
+    (forall e, In e work -> snd e <> []) -> (maxlen work < fuel)%nat ->
+    fst (levels fm fuel k work final asked) <> Panic.
+Proof.
+  intros Hfm. induction fuel as [|fuel IH]; intros k work final asked Hne Hlen; [lia|].
+  destruct work as [|e0 work0]; [cbn; discriminate|].
+  remember (e0 :: work0) as work eqn:Ew.
+  assert (Hlv : levels fm (S fuel) k work final asked =
+          let q := canon (map last_parent work) in
+          match fm k q with
+          | Err e => (Err e, asked ++ [q])
+          | Panic => (Panic, asked ++ [q])
+          | Ok missing =>
+              let '(work', final') := scan (length work) missing [] work final in
+              levels fm fuel (S k) work' final' (asked ++ [q])
+          end).
+  { subst work. reflexivity. }
+  rewrite Hlv. clear Hlv. cbv zeta.
+  destruct (fm k (canon (map last_parent work))) as [missing|e|] eqn:Ef; [|cbn; discriminate|exfalso; eapply Hfm; exact Ef].
+  destruct (scan (length work) missing [] work final) as [w' f'] eqn:Es.
+  apply scan_spec in Es; [|apply Nat.le_refl]. destruct Es as [H1 _].
+  assert (Hw' : forall x, In x w' -> exists e, In e work /\ more e = true /\ x = trim e).
+  { intros x Hx. apply H1 in Hx as [[]|[e [He [_ [Hm Hx]]]]]. eauto. }
+  apply IH.
+  - intros x Hx. destruct (Hw' x Hx) as [e [He [Hm ->]]]. unfold trim, more in *. cbn [snd].
+    apply Nat.ltb_lt in Hm. destruct (snd e) as [|a [|b l]]; cbn in Hm; try lia. discriminate.
+  - assert (Hge : (1 <= maxlen work)%nat).
+    { assert (Hin : In e0 work) by (subst work; left; reflexivity).
+      pose proof (maxlen_ge work e0 Hin) as G. pose proof (Hne e0 Hin) as G2.
+      destruct (snd e0); [congruence|]. cbn [length] in G. lia. }
+    assert (maxlen w' <= pred (maxlen work))%nat; [|lia].
+    apply maxlen_le. intros x Hx. destruct (Hw' x Hx) as [e [He [Hm ->]]].
+    pose proof (maxlen_ge _ _ He). unfold trim, more in *. cbn [snd]. apply Nat.ltb_lt in Hm.
+    assert (Hn : snd e <> []) by (destruct (snd e); [cbn in Hm; lia|discriminate]).
+    pose proof (removelast_len (snd e) Hn). lia.
+Qed.
+
+(** whatever the backend answers (errors, answers changing between calls), the
+    work-list loop of FindMissing terminates within the fuel *)
+Lemma hier_fm_no_panic (fm : nat -> list digest -> outcome (list digest)) ds :
+  (forall k q, fm k q <> Panic) -> fst (hier_fm fm ds) <> Panic.
+Proof.
+  intros Hfm. unfold hier_fm. destruct (fm O (canon ds)) as [m0|e|] eqn:E0; [|cbn; discriminate|exfalso; eapply Hfm; exact E0].
+  destruct (classify (canon m0) [] []) as [work final] eqn:Ec.
+  apply levels_no_panic; [exact Hfm| |unfold maxlen; lia].
+  eapply classify_nonempty; [exact Ec|intros ? []].
+Qed.
